@@ -4,7 +4,8 @@ from lib import *
 import skel
 
 THEOREMS = ["Vars.block_scoped", "Vars.goStmt_stack", "Vars.use_undefined_iff", "Vars.use_skipped_iff",
-            "Vars.use_ok_iff", "Vars.declare_clash_iff"]
+            "Vars.use_ok_iff", "Vars.declare_clash_iff",
+            "Vars.skip_detected", "Vars.goStmt_pending", "Vars.goStmt_persist", "Vars.goStmt_fresh"]
 R = 0        # declared first in every body
 CONST = 5    # a module constant
 PARAM = 3    # a parameter
